@@ -630,10 +630,12 @@ def rule_ok_requires_digits(col, facts):
                         e = strip_casts(e)
                         if e[0] == "kc" and last_seg(e[1]).startswith("REQUIRED_") and p is False:
                             ok = True
-                        if e[0] == "bin" and e[1] == "Eq" and strip_casts(e[3]) == ("k", 0) and p is False and (
-                                any(last_seg(c[1]) == "current_count" for c in expr_calls(e)) or strip_casts(e[2])[0] in ("var", "k")):
+                        # the count itself, not something computed from it (`count - 1` is zero after one byte)
+                        lhs = strip_casts(e[2]) if e[0] == "bin" else None
+                        is_count = lhs is not None and ((lhs[0] == "call" and last_seg(lhs[1]) == "current_count") or lhs[0] in ("var", "k"))
+                        if e[0] == "bin" and e[1] == "Eq" and strip_casts(e[3]) == ("k", 0) and p is False and is_count:
                             ok = True
-                        if e[0] == "bin" and e[1] == "Ne" and strip_casts(e[3]) == ("k", 0) and p is True and any(last_seg(c[1]) == "current_count" for c in expr_calls(e)):
+                        if e[0] == "bin" and e[1] == "Ne" and strip_casts(e[3]) == ("k", 0) and p is True and is_count and lhs[0] == "call":
                             ok = True
                     if not ok:
                         bad_alt = alt
@@ -2794,3 +2796,93 @@ def rule_integer_buffer_nondecimal(col, facts):
             bad += 1
     col.check(R, "integer:buffer_size_const:non-decimal-size", n >= 1 and bad == 0,
               "%d path(s) for radix != 10 found, %d of them not returning FORMATTED_SIZE: in this feature set a non-decimal radix is sized with FORMATTED_SIZE_DECIMAL (u64 radix 2: 20 bytes for 64 digits)" % (n, bad), f.loc())
+
+
+def rule_required_sign_enforced(col, facts):
+    """MPT-required-sign: with required_mantissa_sign / required_exponent_sign a number without a sign is an
+    error wherever the sign could stand - also when the input *ends* there.  In the three sign parsers every path
+    that returns Ok(false) (no sign consumed) must have found the `required` getter false; paths on which one
+    getter is seen both true and false are infeasible and ignored."""
+    if "format" not in facts.config:
+        return
+    from rules.core import enum_paths, resolve_env, simplify_proj
+    R = "MPT-required-sign"
+    n = 0
+    for nm, getter in ((PF + "parse::parse_exponent_sign", "required_exponent_sign"), (PF + "parse::parse_mantissa_sign", "required_mantissa_sign"),
+                       ("lexical_parse_integer::algorithm::parse_sign", "required_mantissa_sign")):
+        f = facts.fn(nm)
+        rets = {i for i, b in enumerate(f.blocks) if f.live(i) and b["t"]["k"] == "return"}
+        bad = 0
+        seen = 0
+        for t, atoms, env in enum_paths(f, 0, rets, want_env=True, resolve_atoms=True):
+            pol = {}
+            feasible = True
+            for a, p in atoms:
+                a = strip_casts(a)
+                if a[0] == "call" and isinstance(p, bool):
+                    g = last_seg(a[1])
+                    if g in pol and pol[g] != p:
+                        feasible = False
+                    pol[g] = p
+            if not feasible:
+                continue
+            r = env.get(0)
+            if r is None or r[0] != "expr":
+                continue
+            e = strip_casts(simplify_proj(resolve_env(r[1], env)))
+            if not (e[0] == "agg" and e[1][0] == "adt" and e[1][3] == "Ok" and strip_casts(e[2][0]) in (("k", False), ("k", 0))):
+                continue
+            # Ok(false): was a '+' consumed on this path?  (then `false` means "positive", not "no sign")
+            plus = any(p == ("eq", 43) for a, p in atoms)
+            if plus:
+                continue
+            seen += 1
+            if pol.get(getter) is not False:
+                bad += 1
+        n += seen
+        col.check(R, "%s:no-sign-only-if-not-required" % last_seg(nm), seen >= 1 and bad == 0,
+                  "%d of %d paths return Ok(false) without a sign having been read and without `%s()` having been found false: where the input ends at the place of a required sign it is accepted (`` as 0, `1e` with required_exponent_sign)" % (bad, seen, getter), f.loc())
+    col.floor(R, "no-sign paths of the sign parsers", n, 6)
+
+
+def rule_empty_component_counts_digits(col, facts):
+    """UNIT-count (float parser, required digits): "the component has no digit" is a statement about digits.  The
+    quantity compared with zero before EmptyInteger / EmptyFraction / EmptyExponent is returned must be a
+    difference of current_count() (digits) and never of cursor() (bytes: separators and the exponent sign are
+    bytes, not digits) - and for the exponent the count before must be read *after* the exponent sign was
+    consumed, since for contiguous input the count is the cursor and the sign would pass for a digit."""
+    from rules.syntax import error_sites
+    R = "UNIT-count"
+    f = facts.fn(PF + "parse::parse_number")
+    sign_calls = [bb for bb, c, a, d, t in f.calls() if last_seg(callee_name(c)) == "parse_exponent_sign"]
+    col.check(R, "parse_number:parse_exponent_sign", len(sign_calls) == 1, "expected one call of parse_exponent_sign, found %d" % len(sign_calls), f.loc())
+    call_block = {d[0]: bb for bb, c, a, d, t in f.calls() if d and not d[1]}
+    n = 0
+    for bb, v, sp in error_sites(f):
+        if v not in ("EmptyInteger", "EmptyFraction", "EmptyExponent"):
+            continue
+        for _d, e, p in path_conditions(f, bb):
+            e = strip_casts(e)
+            if not (e[0] == "bin" and e[1] == "Eq" and strip_casts(e[3]) == ("k", 0) and p is True):
+                continue
+            n += 1
+            x = strip_casts(e[2])
+            exprs = [x]
+            if x[0] == "var":
+                exprs = [rvalue_expr(f, rv, 1, x[1]) for _b, _j, rv, pr in f.defs().get(x[1], []) if not pr]
+            names = set()
+            for y in exprs:
+                names |= {last_seg(c[1]) for c in expr_calls(y)}
+            ok = "current_count" in names and "cursor" not in names
+            col.check(R, "parse_number:%s:digits-not-bytes" % v, ok,
+                      "Error::%s is decided on `%s`, which is %s: digit separators / the sign byte are counted as digits (`1._` accepted under required_fraction_digits)" % (v, show(x)[:60], "a byte (cursor) difference" if "cursor" in names else "not a difference of current_count()"), f.loc(sp))
+            if v == "EmptyExponent" and sign_calls:
+                # the subtrahend = the count taken before the digits: its call must come after the sign was parsed
+                ok2 = False
+                if x[0] == "bin" and x[1] == "Sub":
+                    sub = strip_casts(x[3])
+                    if sub[0] == "call" and len(sub) > 3 and sub[3] in call_block:
+                        ok2 = f.dominates(sign_calls[0], call_block[sub[3]])
+                col.check(R, "parse_number:EmptyExponent:count-after-sign", ok2,
+                          "the digit count the exponent digits are measured from is read before parse_exponent_sign: for contiguous input the count is the cursor, so the sign byte counts as an exponent digit and `1e+` is accepted", f.loc(sp))
+    col.floor(R, "empty-component tests in parse_number", n, 3 if "format" in facts.config else 1)
